@@ -223,6 +223,15 @@ func OwnLayers(n *gen.Node) []Layer {
 		l.IsLink, l.Hint, l.HasHint = true, linkHint(S[0]), true
 		l.Link = &[2]string{S[0], S[1]}
 		out = []Layer{l}
+	case "issuelinkd", "issuelinku":
+		l := libL("issuelink", "withIssueLink")
+		link := [2]string{"", S[0]}
+		if n.Kind == "issuelinku" {
+			link = [2]string{S[0], ""}
+		}
+		l.IsLink, l.Hint, l.HasHint = true, linkHint(link[0]), true
+		l.Link = &link
+		out = []Layer{l}
 	case "tags":
 		l := libL("contexttags", "withContext")
 		l.Tags = [][2]string{{S[0], S[1]}, {"n", fmt.Sprint(n.N[0])}}
@@ -384,7 +393,7 @@ func Text(n *gen.Node) string {
 		return "safe " + S[0] + ": " + k(0)
 	case "withstack", "hint", "detail", "safedetails", "telemetry", "domain", "issuelink", "tags", "tagsafe",
 		"assertion", "mark", "secondary", "http", "grpc", "pkgstack", "emptywrap", "wrapempty",
-		"hintf", "detailf", "telemetry0", "combine":
+		"hintf", "detailf", "telemetry0", "combine", "issuelinkd", "issuelinku":
 		return k(0)
 	case "newfw":
 		return S[0] + " " + k(0) + " " + S[1]
